@@ -186,6 +186,20 @@ func resolveUDP(p *Prog) *udpRoles {
 			r.readLoop = e.From
 		}
 	}
+	// the read loop proper is the function the constructor starts: climb through private helpers that have one
+	// static caller (readLoop -> readUntilError -> read/readBatch)
+	for i := 0; i < 4 && r.readLoop != nil; i++ {
+		var ins []cgEdge
+		for _, e := range cg.In[r.readLoop] {
+			if e.Kind != "ref" {
+				ins = append(ins, e)
+			}
+		}
+		if len(ins) != 1 || ins[0].Kind != "static" || !isPrivateHelper(r.readLoop) {
+			break
+		}
+		r.readLoop = ins[0].From
+	}
 	for k, v := range map[string]string{"pConn": r.pConn, "acceptCh": r.acceptCh, "doneCh": r.doneCh, "conns": r.conns, "connLock": r.connLock,
 		"connWG": r.connWG, "readWG": r.readWG, "accepting": r.accepting, "Conn.listener": r.cListener, "Conn.rAddr": r.cRAddr, "Conn.buffer": r.cBuffer, "Conn.doneCh": r.cDoneCh} {
 		if v == "" {
@@ -519,11 +533,14 @@ func runC12(c *Ctx) {
 			oq.Fail(sel.Pos(), "the enqueue is not under connLock")
 		}
 		okf := false
-		for _, ft := range guards(sel) {
+		for _, ft := range append(guards(sel), allFactsAt(sel, 0)...) {
 			if r.acceptingFact(ft, true) {
 				okf = true
 				// from where the flag was read (not from where it was branched on) to the enqueue
 				from := ssa.Instruction(ft.If)
+				if ft.If == nil {
+					from = sel
+				}
 				derivesFrom(ft.Cond, func(v ssa.Value) bool {
 					if call, ok := v.(*ssa.Call); ok && (callName(call) == "(*sync/atomic.Value).Load" || callName(call) == "(*sync/atomic.Bool).Load") {
 						from = call
@@ -1124,6 +1141,7 @@ func runC11(c *Ctx) {
 	// R3 registration only on the success edge of the enqueue, after accepting + filter, under the lock
 	o = c.Obl("R3", fname(G), "a conn is registered only on the success edge of the non-blocking enqueue, after the accepting test and the accept filter's true edge, under connLock, and it is the conn that was queued", 1)
 	nIns := 0
+	var registered []ssa.Value
 	forEach(findU(G, func(ssa.Instruction) bool { return true }), func(in ssa.Instruction) {
 		mu, ok := in.(*ssa.MapUpdate)
 		if !ok || !isFieldLoad(mu.Map, r.LT, r.conns) {
@@ -1134,11 +1152,55 @@ func runC11(c *Ctx) {
 		if !r.holdsConnLock(la, in) {
 			o.Fail(in.Pos(), "registration outside connLock")
 		}
-		if okBlk == nil || !(okBlk == in.Block() || okBlk.Dominates(in.Block())) {
+		// path by path (helpers inlined): the registration follows a select whose send case was taken, and the value
+		// registered is the value sent (the enqueue may sit in a helper that reports success as a boolean)
+		onSuccess, sameConn := false, false
+		if ups, okU := enumIterPathsU(G, 20000); okU {
+			onSuccess, sameConn = true, true
+			seenPath := false
+			for pi := range ups {
+				pt := &ups[pi]
+				idx := pt.indexOf(in)
+				if idx < 0 {
+					continue
+				}
+				seenPath = true
+				sentOK, sameOK := false, false
+				for j, x := range pt.Instrs[:idx] {
+					sl, isSel := x.(*ssa.Select)
+					if !isSel {
+						continue
+					}
+					k := selCaseOnPathAt(pt, sl, j)
+					if k < 0 || k >= len(sl.States) || sl.States[k].Dir != types.SendOnly {
+						continue
+					}
+					if fr, ok := asFieldLoad(pt.valueAt(sl.States[k].Chan, j)); ok && fr.SName == r.LT && fr.Field == r.acceptCh {
+						sentOK = true
+						if strip(pt.valueAt(sl.States[k].Send, j)) == strip(pt.valueAt(mu.Value, idx)) {
+							sameOK = true
+						}
+					}
+				}
+				if !sentOK {
+					onSuccess = false
+				}
+				if !sameOK {
+					sameConn = false
+				}
+			}
+			if !seenPath {
+				onSuccess, sameConn = false, false
+			}
+		}
+		if !onSuccess && (okBlk == nil || !(okBlk == in.Block() || okBlk.Dominates(in.Block()))) {
 			o.Fail(in.Pos(), "registration is not on the success edge of the enqueue: a refused/overflowing datagram creates a connection nobody can accept")
 		}
-		if mu.Value != sentConn {
+		if mu.Value != sentConn && !sameConn {
 			o.Fail(in.Pos(), "the registered conn is not the one offered to Accept")
+		}
+		if sameConn {
+			registered = append(registered, mu.Value)
 		}
 		if !hasFact(in, func(ft fact) bool { return r.acceptingFact(ft, true) }) {
 			o.Fail(in.Pos(), "registration is not on the accepting edge")
@@ -1251,6 +1313,11 @@ func runC11(c *Ctx) {
 					isLook = true
 				}
 			}
+			for _, rg := range registered {
+				if sameOrigin(e, rg) {
+					isLook = true // the conn that was queued and registered on this path
+				}
+			}
 			if !isLook && e != sentConn {
 				o.Fail(e.Pos(), "%s returns a conn that is neither the registered one for this address nor the newly queued one", fname(G))
 			}
@@ -1268,7 +1335,7 @@ func runC11(c *Ctx) {
 	}
 	for _, rd := range r.readers {
 		for _, e := range cg.In[rd] {
-			if e.Kind != "static" || e.From != r.readLoop {
+			if e.Kind != "static" || (e.From != r.readLoop && !(isPrivateHelper(e.From) && isIn(e.From, r.readLoop))) {
 				o.Fail(e.Site.Pos(), "reader %s is invoked from %s (%s)", fname(rd), fname(e.From), e.Kind)
 			}
 		}
@@ -1607,13 +1674,48 @@ func (r *udpRoles) readLoopEndRules(c *Ctx, wantStore bool, id string) {
 			}
 			o.Site(ret.Pos(), "Accept fails")
 			if isNilConst(strip(ev)) {
-				o.Fail(ret.Pos(), "Accept returns neither a conn nor an error")
+				// "if v, ok := l.errRead.Load().(error); ok { err = v }": the edge on which nothing was stored is
+				// the one the read loop's side of this rule excludes; the field is checked as on the other edge
+				viaUnset := ""
+				ci := 0
+				for j, in := range p.Instrs {
+					if _, isIf := in.(*ssa.If); !isIf {
+						continue
+					}
+					my := ci
+					ci++
+					if my >= len(p.Conds) {
+						break
+					}
+					ft := p.Conds[my]
+					cv, val := ft.Cond, ft.Val
+					if u, isU := cv.(*ssa.UnOp); isU && u.Op == token.NOT {
+						cv, val = u.X, !val
+					}
+					ex, isEx := p.valueAt(cv, j).(*ssa.Extract)
+					if !isEx || ex.Index != 1 || val {
+						continue
+					}
+					if ta, isTA := ex.Tuple.(*ssa.TypeAssert); isTA && ta.CommaOk {
+						if f := fieldOfLoad(ta.X); f != "" {
+							viaUnset = f
+						}
+					}
+				}
+				if viaUnset == "" {
+					o.Fail(ret.Pos(), "Accept returns neither a conn nor an error")
+					continue
+				}
+				ev = nil
+				errField = viaUnset
+			}
+			if ev != nil && (isSentinelErr(c.P, ev) || neverNilCall(strip(ev))) {
 				continue
 			}
-			if isSentinelErr(c.P, ev) || neverNilCall(strip(ev)) {
-				continue
+			f := errField
+			if ev != nil {
+				f = fieldOfLoad(ev)
 			}
-			f := fieldOfLoad(ev)
 			if f == "" {
 				o.Fail(ret.Pos(), "Accept fails with a value that is not known to be an error (not a sentinel, not the read loop's stored error): it may be nil")
 				continue
@@ -1845,7 +1947,15 @@ func (r *udpRoles) wrapperCloseRule(c *Ctx) {
 				if recv == nil {
 					continue
 				}
-				if fr, ok := asFieldLoad(pp.valueAt(recv, j)); ok && derefNamed(fr.Base.Type()) == derefNamed(wt) {
+				rv := pp.valueAt(recv, j)
+				for k := 0; k < 4; k++ {
+					if st := strip(rv); st != rv {
+						rv = pp.valueAt(st, j)
+						continue
+					}
+					break
+				}
+				if fr, ok := asFieldLoad(rv); ok && derefNamed(fr.Base.Type()) == derefNamed(wt) {
 					closed = true
 					if !seenSite[in.Pos()] {
 						seenSite[in.Pos()] = true
